@@ -116,11 +116,21 @@ def c07(prop, tier, seed, core):
     m = core.merge(prop, tier, seed, fixed, known, engine="progsim")
     m["violations"].extend(extra_viol)
     # hostile scenarios, one process each
-    hres = run_hostile(core, prop, work, HOSTILE, release=False)
+    add_hostile(m, core, prop, work, tier, HOSTILE, known_sigs)
+    m["rule"] = (core.RULES["progsim"] + " C07 adds: programs from a hostile profile (40% no-op parents, empty parent sets, 25% unsampled roots, property "
+                 "closures that themselves run API operations, all adapter kinds, thread exits) where any panic or a logical thread that does not "
+                 "come back is the violation; plus one-process-per-scenario runs: every public call before set_reporter, 4200 nested scopes, 10400 "
+                 "local spans in one scope, 25000 commands into a ring nobody drains (per-call latency recorded), and the full call list issued "
+                 "from thread-local destructors in every registration order of the user's, fastrace's and rand's thread-locals.")
+    return m
+
+
+def add_hostile(m, core, prop, work, tier, names, known_sigs):
+    hres = run_hostile(core, prop, work, names, release=False)
     if tier == "thorough":
         ok, err = core.build(release=True)
         if ok:
-            hres += run_hostile(core, prop, work, HOSTILE, release=True)
+            hres += run_hostile(core, prop, work, names, release=True)
         else:
             m["inconclusive"].append("release build failed: " + err[-200:])
     scen = []
@@ -154,12 +164,23 @@ def c07(prop, tier, seed, core):
     m["cov"]["hostile_scenarios"] = scen
     m["cov"]["hostile_api_calls_returned"] = calls
     m["cov"]["known_findings_witnessed"] = m["known_hits"]
-    m["rule"] = (core.RULES["progsim"] + " C07 adds: programs from a hostile profile (40% no-op parents, empty parent sets, 25% unsampled roots, property "
-                 "closures that themselves run API operations, all adapter kinds, thread exits) where any panic or a logical thread that does not "
-                 "come back is the violation; plus one-process-per-scenario runs: every public call before set_reporter, 4200 nested scopes, 10400 "
-                 "local spans in one scope, 25000 commands into a ring nobody drains (per-call latency recorded), and the full call list issued "
-                 "from thread-local destructors in every registration order of the user's, fastrace's and rand's thread-locals.")
-    return m
 
 
 HANDLERS["C07"] = c07
+
+
+def c09(prop, tier, seed, core):
+    m = core.check_progsim_family(prop, tier, seed)
+    work = os.path.join(core.WORK, prop)
+    known_sigs = [e["signature"] for e in core.known_for(prop)]
+    add_hostile(m, core, prop, work, tier, ["full-ring", "full-ring-cancelable", "deep-scopes", "deep-scopes-cancelable", "wide-scope"], known_sigs)
+    m["rule"] = (core.RULES["progsim"] + " C09 programs: ordinary operations, then one thread floods its 10240-slot command ring (10300+ cheap commands) while "
+                 "the collector is held back, issues operations of every kind during the episode, the collector drains, the thread sends again and "
+                 "runs a complete fresh trace. The Push hook reads `full` before every push, which gives the exact set of possibly dropped commands; "
+                 "only those may be missing, everything delivered is checked by all record oracles, cancelled traces must stay away, entries of "
+                 "finished traces must be gone. Templates: cancel+finish parked with a full ring and replayed (collector stepped between the replayed "
+                 "pushes), 10300 local spans in one scope, 4100 nested scopes; hostile processes measure per-call latency with an undrained ring.")
+    return m
+
+
+HANDLERS["C09"] = c09
